@@ -112,7 +112,15 @@ class ThreadWorker(base.Worker):
         fs.add_done_callback(self.finish_request)
 
     def enqueue_req(self, conn):
-        conn.init()
+        try:
+            conn.init()
+        except OSError as e:
+            # with do_handshake_on_connect the TLS handshake runs here, in
+            # the main loop: a peer that fails it must not stop the worker
+            self.log.debug("Error initializing connection: %s", e)
+            self.nr_conns -= 1
+            conn.close()
+            return
         # submit the connection to a worker
         fs = self.tpool.submit(self.handle, conn)
         self._wrap_future(fs, conn)
